@@ -128,6 +128,16 @@ func (r *Run) HasViolation(class string) bool {
 	return ok
 }
 
+// KnownClasses returns the classes listed as known findings for this property (sorted): enumerators keep exploring past them.
+func (r *Run) KnownClasses() []string {
+	var ks []string
+	for k := range r.known {
+		ks = append(ks, k)
+	}
+	sort.Strings(ks)
+	return ks
+}
+
 // NumViolations returns the number of violating classes so far.
 func (r *Run) NumViolations() int {
 	r.mu.Lock()
